@@ -564,6 +564,15 @@ def normal_form(u, s, sclass, rpath, rquery, rfrag, acc, case):
         dots = "." in rpath and remove_dots_rfc(rpath) != rpath
         # structural shape of the difference: same segments up to empty ones, or not
         same_nonempty = [x for x in pct_decode(upath).split(b"/") if x] == [x for x in pct_decode(epath).split(b"/") if x]
+        if dots and same_nonempty:
+            # The statement asks for "dot-segments removed" (checked above: no '.'/'..' segment is left) and
+            # for a stable re-parse; it does not say what becomes of EMPTY segments next to a removed '..'
+            # that climbs above the root ("http:/..//" -> RFC 3986 5.2.4 "//", urllib3 "/"). Every non-empty
+            # segment agrees with the RFC reading here, so this region is 'either' (counted, not flagged);
+            # a lost/added empty segment WITHOUT dot-segments, or any differing non-empty segment, is flagged.
+            acc.counters["either_empty_segment_beside_removed_dot_segment"] += 1
+            ok = True
+    if not ok:
         acc.violation("normal-form", {"what": "path", "mode": mode, "dot_segments": dots,
                                       "diff": "empty-segment-lost-or-added" if same_nonempty else "segments-differ"},
                       case, observed=u.path, expected=epath)
